@@ -22,11 +22,57 @@ from .record import Oracle, recording
 class StubNetwork:
     """ground-truth link table: id → Link (speed may differ from the route estimate)"""
 
+    sim_h3_resolution = 15
+
     def __init__(self, links: Dict[str, Link]):
         self.links = links
 
     def link_from_link_id(self, link_id):
         return self.links.get(link_id)
+
+    def geoid_within_geofence(self, geoid):
+        return True
+
+
+_TEMPLATE = None
+
+
+def _move_probe(route, dt: int, net) -> Dict[str, Any]:
+    """the same route and step through the real `vehicle_state_ops.move`: a vehicle with a full
+    battery in Repositioning(route) standing at the start of the route"""
+    global _TEMPLATE
+    from dataclasses import replace
+
+    from nrel.hive.model.entity_position import EntityPosition
+    from nrel.hive.model.sim_time import SimTime
+    from nrel.hive.state.simulation_state import simulation_state_ops as ops
+    from nrel.hive.state.simulation_state.simulation_state import SimulationState
+    from nrel.hive.state.vehicle_state.repositioning import Repositioning
+    from nrel.hive.state.vehicle_state.vehicle_state_ops import move
+
+    if _TEMPLATE is None:
+        from .world import World
+
+        w = World(random.Random(1), n_veh=(2, 2), with_ice=False, with_humans=False, with_fleets=False)
+        _TEMPLATE = (w.env, next(v for _, v in sorted(w.sim0.vehicles.items())))
+    env, tv = _TEMPLATE
+    mech = env.mechatronics[tv.mechatronics_id]
+    res = h3.h3_get_resolution(route[0].start)
+    sim = SimulationState(road_network=net, sim_time=SimTime.build(0), sim_timestep_duration_seconds=dt,
+                          sim_h3_location_resolution=res, sim_h3_search_resolution=min(9, res))
+    veh = replace(tv, position=EntityPosition(route[0].link_id, route[0].start), energy=mech.initial_energy(1.0),
+                  vehicle_state=Repositioning.build(tv.id, tuple(route)), distance_traveled_km=0.0)
+    sim = ops.add_vehicle_safe(sim, veh).unwrap()
+    env.reporter.reports = []
+    err, s2 = move(sim, env, tv.id)
+    if err is not None:
+        return {"kind": "error"}
+    if s2 is None:
+        return {"kind": "none"}
+    v2 = s2.vehicles[tv.id]
+    st = v2.vehicle_state
+    return {"kind": "ok", "state": type(st).__name__, "link": v2.position.link_id, "cell": v2.position.geoid, "km": v2.distance_traveled_km,
+            "route": getattr(st, "route", None)}
 
 
 def gen_case(rng: random.Random, k: int) -> Dict[str, Any]:
@@ -83,6 +129,16 @@ def gen_case(rng: random.Random, k: int) -> Dict[str, Any]:
         rec["experienced"] = enc_route(n, res_.experienced_route)
         rec["remaining"] = enc_route(n, res_.remaining_route)
         rec["km"] = q(res_.traversal_distance_km)
+    if res_ is not None and err is None and route:
+        try:
+            m = _move_probe(tuple(route), dt, net)
+        except Exception as e:  # the probe itself must not stop the layer
+            m = {"kind": "raise", "error": f"{type(e).__name__}: {e}"[:200]}
+        if m["kind"] == "ok" and m["route"] is not None:
+            rec["moved"] = {"state": m["state"], "pos": {"link": n.get("link", m["link"]), "cell": n.cell(m["cell"])}, "km": q(m["km"]),
+                            "route": enc_route(n, m["route"])}
+        else:
+            rec["moveKind"] = m["kind"] + (":" + m.get("error", "") if m["kind"] == "raise" else "")
     rec["oracle"]["parent"] = []
     shape = ("empty" if not route else "closed" if route[0].start == route[-1].end else "open",
              rec["kind"], len(rec.get("experienced", [])) > 0, len(rec.get("remaining", [])) > 0,
